@@ -11,7 +11,10 @@ duplicate primary key.  Spec: AgVerif.Spec.Session (IsSchedule, Overlap, AllCrea
 code: its full statement is refuted and the failing schedules are characterised exactly
 (`race_iff`) — what the fix prevents.  `stepAtomic` is the reference repair of the design.
 Assumption (trusted base): SQLite executes one COUNT / one INSERT atomically and enforces the
-primary key; the table holds ids 0..b-1 when the sessions start.
+primary key.  That the table holds exactly the ids 0..rows-1 is NOT left to prose: it is the invariant
+`Dense` (`dense_invariant`: true of the empty table, preserved by every step), the hypothesis `DenseIds`
+of `retry_ok_on_dense_table`, and `gap_livelocks` shows what happens without it.  Databases also modified
+by other writers (deleted rows, foreign inserts) are outside the claim.
 -/
 import AgVerif.Proof.Session
 import AgVerif.Gen.SessionLoop
@@ -210,6 +213,49 @@ theorem atomic_all_schedules_ok (N b : Nat) (σ : List Nat) (hall : ∀ i, i < N
   | failed k => exact absurd hp (inv.not_failed i k)
   | done k => exact ⟨k, by simp [St.outcome, hp]⟩
 
+/-! ## density of the table: proved of this code, needed by the theorems -/
+
+/-- `Dense`: the primary keys in the table are exactly 0 … rows-1 (and no session holds a count above the
+    row number).  It holds for the empty table and for `St.init b`, and EVERY step of EVERY session of this
+    code — fixed or unfixed — preserves it, from any dense state: for a database that only this code writes
+    to, density is an invariant, not an assumption. -/
+theorem dense_invariant :
+    Dense (St.start []) ∧ (∀ b, Dense (St.init b)) ∧
+    (∀ s x, Dense s → Dense (stepRetry s x)) ∧ (∀ s x, Dense s → Dense (stepOld s x)) ∧
+    (∀ σ s, Dense s → Dense (run stepRetry σ s)) :=
+  ⟨dense_start [] (by decide), dense_init, dense_stepRetry, dense_stepOld, dense_run stepRetry dense_stepRetry⟩
+
+/-- THE PROPERTY, hypothesis explicit: sessions starting on ANY table whose primary keys are dense
+    (`DenseIds ids₀`, not a particular `St.init b`): under every schedule no constructor raises and
+    identifiers are pairwise distinct; each session is created within 2N own steps; with those steps
+    granted all N are created and the table is again dense with N more rows. -/
+theorem retry_ok_on_dense_table (N : Nat) (ids₀ : List Nat) (hd : DenseIds ids₀) (σ : List Nat)
+    (hσ : ∀ i, i ∈ σ → i < N) :
+    (∀ i k, (run stepRetry σ (St.start ids₀)).pc i ≠ .failed k) ∧
+    (∀ i j k, (run stepRetry σ (St.start ids₀)).outcome i = some k →
+              (run stepRetry σ (St.start ids₀)).outcome j = some k → i = j) ∧
+    Dense (run stepRetry σ (St.start ids₀)) ∧
+    (∀ i, i < N → 2 * N ≤ σ.count i → ∃ k, (run stepRetry σ (St.start ids₀)).pc i = .done k) ∧
+    ((∀ i, i < N → 2 * N ≤ σ.count i) →
+      AllCreatedDistinct N (run stepRetry σ (St.start ids₀)).outcome ∧
+      (run stepRetry σ (St.start ids₀)).ids = List.range (ids₀.length + N)) := by
+  have hdense := dense_run stepRetry dense_stepRetry σ _ (dense_start ids₀ hd)
+  rw [start_eq_init ids₀ hd] at hdense ⊢
+  obtain ⟨h1, h2, _⟩ := retry_safe N ids₀.length σ hσ
+  exact ⟨h1, h2, hdense, fun i hi hc => retry_bounded N ids₀.length σ hσ i hi hc,
+    fun hf => retry_all_schedules_ok N ids₀.length σ hσ hf⟩
+
+/-- The hypothesis is needed: on the table {0, 2} (a deleted row, or a foreign writer) the count is 2 and
+    id 2 is taken, so under EVERY schedule of any number of sessions nothing is ever inserted and no
+    session is ever created — the unbounded loop spins for ever. -/
+theorem gap_livelocks (σ : List Nat) :
+    ¬ DenseIds [0, 2] ∧ (run stepRetry σ (St.start [0, 2])).ids = [0, 2] ∧
+    ∀ i, (run stepRetry σ (St.start [0, 2])).outcome i = none := by
+  have h := gapStuck_run σ (St.start [0, 2]) ⟨rfl, fun _ => Or.inl rfl⟩
+  refine ⟨by decide, h.1, ?_⟩
+  intro i
+  rcases h.2 i with hp | hp <;> simp [St.outcome, hp]
+
 /-! ## the loop of the code is the loop of the model -/
 
 /-- What `stepRetry` assumes about Session.__init__, checked against the AST extracted on every run
@@ -270,5 +316,9 @@ example : ((run stepRetry [0, 1, 0, 1, 1] (St.init 0)).pc 1).isDone = false := b
 -- the budget-5 loop of the seeded change: six sessions, the victim loses five times and raises
 example : (run (stepBounded 5) (victim 5) (St.init 0)).pc 0 = .failed 4 := by decide
 example : ((run stepRetry (victim 5 ++ [0, 0]) (St.init 0)).pc 0) = .done 5 := by decide
+-- a dense table that is not of the form produced here by name, and the gap table after 6 steps of one session
+example : DenseIds [0, 1, 2] ∧ ¬ DenseIds [0, 2] := by decide
+example : (run stepRetry [0, 0, 0, 0, 0, 0] (St.start [0, 2])).retries 0 = 3 ∧
+          (run stepRetry [0, 0, 0, 0, 0, 0] (St.start [0, 2])).pc 0 = .idle := by decide
 
 end AgVerif.C36
